@@ -246,3 +246,106 @@ Definition plan_upload (cs limit : Z) (inline_ok etc : bool) (len : N) (e : endi
 Definition shape (r : upload_result) : plan :=
   PL (map (fun c => (ck_off c, ck_size c)) (ur_chunks r)) (ur_off r) (ur_err r) (ur_rerr r)
      (N.of_nat (length (ur_small r))) (ur_hashed r).
+
+(* ---------- the store around the request path: saveMetaData's path fix and Filer.CreateEntry ----------
+   [handle_write] above describes one path slot that accepts every entry.  The
+   definitions below add what saveMetaData and Filer.CreateEntry do around it:
+     * "fix the path": a URL path without trailing "/" that is an existing
+       DIRECTORY gets "/" + fileName appended when fileName <> "" (for a PUT
+       fileName = path.Base(URL path), so PUT /d writes /d/d);
+     * ?op=append merges into whatever entry is stored under the resolved path
+       (FindEntry), a directory entry included;
+     * Filer.CreateEntry refuses a new entry below a regular file
+       (ensureParentDirecotryEntry: "... is a file" -> 409) and a file over a
+       directory (UpdateEntry: "existing ... is a directory" -> 500); saveMetaData
+       then hands the NEW chunks to DeleteChunks;
+     * an upload / read failure (uploadReaderToChunks returns nil chunks) and the
+       "append to small file" refusal return without DeleteChunks: the chunks
+       uploaded so far stay on the volume servers, referenced by nothing;
+     * a successful replacement hands the replaced entry's chunks to DeleteChunks
+       (deleteChunksIfNotNew). *)
+
+Inductive node := NMissing | NFile (e : entry) | NDir (e : entry).
+
+(* fs_a: the entry under the URL path (after a trailing "/" got the file name);
+   fs_b: the entry under that path + "/" + fileName *)
+Record fsstate := { fs_a : node; fs_b : node }.
+
+Record fsreq := {
+  fr_rq : request;
+  fr_slash : bool;        (* the URL path ends with "/" *)
+  fr_hasname : bool;      (* fileName <> "" *)
+  fr_parent_file : bool   (* an ancestor of the URL path is a regular file *) }.
+
+Definition is_dir (n : node) : bool := match n with NDir _ => true | _ => false end.
+
+Definition node_entry (n : node) : option entry :=
+  match n with NMissing => None | NFile e => Some e | NDir e => Some e end.
+
+(* if possibleDirEntry.IsDirectory() { path += "/" + fileName } *)
+Definition redirected (fr : fsreq) (st : fsstate) : bool :=
+  negb (fr_slash fr) && fr_hasname fr && is_dir (fs_a st).
+
+Definition target (fr : fsreq) (st : fsstate) : node :=
+  if redirected fr st then fs_b st else fs_a st.
+
+Definition set_target (fr : fsreq) (st : fsstate) (n : node) : fsstate :=
+  if redirected fr st then {| fs_a := fs_a st; fs_b := n |} else {| fs_a := n; fs_b := fs_b st |}.
+
+(* Filer.CreateEntry of a NEW regular-file entry over node [t] fails *)
+Definition create_fails (fr : fsreq) (st : fsstate) : bool :=
+  match target fr st with
+  | NMissing => fr_parent_file fr && negb (redirected fr st)   (* below a directory the parent is fine *)
+  | NFile _ => false
+  | NDir _ => true
+  end.
+
+Record fsresult := {
+  fo_status : status;
+  fo_state : fsstate;
+  fo_deleted : list chunk;    (* new chunks handed to DeleteChunks *)
+  fo_leaked : list chunk;     (* new chunks uploaded, referenced by no entry, not deleted *)
+  fo_replaced : list chunk    (* chunks of the replaced entry handed to DeleteChunks *) }.
+
+(* the for-loop of uploadReaderToChunks before "if uploadErr != nil { return nil, ... }" *)
+Definition loop_of (rq : request) : upload_result :=
+  upload_loop (fuel_for (rq_cs rq) (N.of_nat (length (rq_body rq)))) (rq_cs rq) (rq_limit rq)
+    (negb (rq_append rq)) (rq_etc rq) (rq_body rq) (rq_end rq) (rq_upfail rq) 0 [] false 0.
+
+Definition handle_write_fs (md5 : list N -> N) (fr : fsreq) (st : fsstate) : fsresult :=
+  let rq := fr_rq fr in
+  let failed del leak := {| fo_status := Failed; fo_state := st; fo_deleted := del;
+                            fo_leaked := leak; fo_replaced := [] |} in
+  match rq_method rq with
+  | PostRaw => failed [] []
+  | _ =>
+    let ur := upload_of rq in
+    if ur_failed ur then failed [] (ur_chunks (loop_of rq))
+    else
+      let t := target fr st in
+      match (if rq_append rq then node_entry t else None) with
+      | Some e =>
+          if negb (is_nil (e_content e)) then failed [] (ur_chunks ur)
+          else
+            (* the found entry itself (directory or file) is updated: CreateEntry accepts it *)
+            let e' := {| e_size := entry_size e + ur_off ur; e_content := e_content e;
+                         e_chunks := e_chunks e ++ map (shift_chunk (entry_size e)) (ur_chunks ur);
+                         e_md5 := None |} in
+            {| fo_status := Created;
+               fo_state := set_target fr st (if is_dir t then NDir e' else NFile e');
+               fo_deleted := []; fo_leaked := []; fo_replaced := [] |}
+      | None =>
+          if create_fails fr st then failed (ur_chunks ur) []
+          else
+            {| fo_status := Created;
+               fo_state := set_target fr st
+                 (NFile {| e_size := ur_off ur; e_content := ur_small ur; e_chunks := ur_chunks ur;
+                           e_md5 := Some (md5 (firstn (N.to_nat (ur_hashed ur)) (rq_body rq))) |});
+               fo_deleted := []; fo_leaked := [];
+               fo_replaced := match t with NFile e0 => e_chunks e0 | _ => [] end |}
+      end
+  end.
+
+(* known finding 0 (c25-append-onto-directory): ?op=append whose resolved path is a DIRECTORY *)
+Definition trigger_append_dir (fr : fsreq) (st : fsstate) : bool :=
+  rq_append (fr_rq fr) && is_dir (target fr st).
